@@ -296,7 +296,7 @@ XS = ["x", "y", "z", "ux", "uy", "uz"]
 _cnt = itertools.count()
 
 
-def orbitframe_case(orientation, offcentre=False, home_name="EME2000"):
+def orbitframe_case(orientation, offcentre=False, home_name="EME2000", parent_home=False):
     """offcentre: the reference orbit is expressed in a frame whose centre is displaced from the Earth's centre by a constant
     vector (as an orbit given in a station frame or in another orbit-attached frame would be)"""
     ins = [(k, "real") for k in RV + XS] + ([(k, "real") for k in ("ox", "oy", "oz")] if offcentre else []) + \
@@ -329,7 +329,9 @@ def orbitframe_case(orientation, offcentre=False, home_name="EME2000"):
                 c0.add_link(cen.Earth, ori.EME2000, env.vec(v["ox"], v["oy"], v["oz"], 0, 0, 0))
                 home = fr.Frame(name + "f", ori.EME2000, c0, False)
             ref_orb = carrier([v[k] for k in RV], date=SymDate(0), frame=home, form=forms.CART)
-            new = fr.orbit2frame(name, ref_orb, orientation=orientation)
+            # parent_home: the frame is attached to the (off-centre) frame of the reference orbit, whose name differs from the
+            # name of its orientation (as for an orbit-attached inertial frame, an equatorial station frame, a body frame)
+            new = fr.orbit2frame(name, ref_orb, orientation=orientation, **({"parent": home} if parent_home else {}))
             probe = carrier([v[k] for k in XS], date=SymDate(0), frame=fr.EME2000, form=forms.CART)
             in_frame = probe.copy(frame=new)
             back = in_frame.copy(frame=fr.EME2000)
@@ -361,7 +363,7 @@ def orbitframe_case(orientation, offcentre=False, home_name="EME2000"):
             c0.add_link(cen.Earth, ori.EME2000, np.array([v["ox"] * 1e6, v["oy"] * 1e6, v["oz"] * 1e6, 0, 0, 0]))
             home = fr.Frame(name + "f", ori.EME2000, c0, False)
         ref_orb = StateVector(sc([v[k] for k in RV]), d, "cartesian", home)
-        new = fr.orbit2frame(name, ref_orb, orientation=orientation, exists_warning=False)
+        new = fr.orbit2frame(name, ref_orb, orientation=orientation, exists_warning=False, **({"parent": home} if parent_home else {}))
         probe = StateVector(sc([v[k] for k in XS]), d, "cartesian", "EME2000")
         in_frame = probe.copy(frame=new)
         back = in_frame.copy(frame="EME2000")
@@ -389,7 +391,8 @@ def orbitframe_case(orientation, offcentre=False, home_name="EME2000"):
             r["norm_preserved"] = 0
             r["axes"] = [0, 0, 0]
         return r
-    return Case(f"orbit_frame/{orientation}{'/offcentre' if offcentre else ''}{'/' + home_name if home_name != 'EME2000' else ''}", ins, run, ref, pre=pre, timeout=120, tol=0, abs_tol=1e-7,
+    return Case(f"orbit_frame/{orientation}{'/offcentre' if offcentre else ''}{'/' + home_name if home_name != 'EME2000' else ''}"
+                f"{'/parent' if parent_home else ''}", ins, run, ref, pre=pre, timeout=120, tol=0, abs_tol=1e-7,
                 desc=f"a frame attached to an orbit (orientation {orientation}): the orbit itself sits at its origin with zero velocity, "
                      "parent -> frame -> parent is the identity for any state, and relative distances are preserved")
 
@@ -502,7 +505,8 @@ def all_cases(tier):
             rate_vector_case("beyond.frames.iau1980"), rate_vector_case("beyond.frames.iau2010"),
             orbitframe_case("QSW"), orbitframe_case("TNW"), orbitframe_case(None),
             orbitframe_case(None, True), orbitframe_case("QSW", True), orbitframe_case("QSW", False, "MOD"),
-            orbitframe_case("TNW", False, "MOD"), orbitframe_kepl_case(), orbitframe_kin_case("QSW")] + c02m.cases(tier)
+            orbitframe_case("TNW", False, "MOD"), orbitframe_kepl_case(), orbitframe_kin_case("QSW"),
+            orbitframe_case("QSW", True, "EME2000", True)] + c02m.cases(tier)
 
 
 def groups(tier):
